@@ -91,13 +91,14 @@ fn part_a(acc: &mut Acc, tier: Tier) {
     par_items(acc, &ds, |a, di, d| {
         let Some(model) = op_model(d.name()) else { return };
         let labels = d.input_alt_labels();
-        // routing-relevant = every query- or header-bound member (any of them could be a sibling's discriminator)
+        // routing-relevant = every query- or header-bound member (any of them could be a sibling's discriminator) and the object
+        // key ("whatever input values it carries": a key is refused or re-read before routing at the adapter's peril)
         let relevant: Vec<usize> = labels
             .iter()
             .enumerate()
             .filter(|(_, l)| {
                 let field = l.trim_start_matches('.').split(['.', '=', '[']).next().unwrap_or("");
-                model.input.iter().any(|m| m.field == field && matches!(m.pos, Pos::Query | Pos::Header))
+                model.input.iter().any(|m| m.field == field && (matches!(m.pos, Pos::Query | Pos::Header) || (m.pos == Pos::Label && field == "key")))
             })
             .map(|(i, _)| i)
             .collect();
@@ -417,7 +418,7 @@ pub fn run(ctx: &Ctx) -> (Acc, Report) {
     let max = ctx.tier.pick(2, 3);
     let rep = Report {
         level: "exploration",
-        rule: format!("(a) 96 operations: the request aws-sdk-s3 encodes for base() and for every single deviation of every query- or header-bound member (thorough: also all pairs of 'member present'), under 5 combinations of addressing style x host parser {{path/none, path/single, path/multi(2), virtual-hosted/single, virtual-hosted/multi(2)}}: the recording backend logs exactly that operation. (a2) every query-bound string member of every operation x every flag / query member name of the model x 6 spellings of a value that embeds it after an escaped separator (a%26flag, a%26flag%3D1, a%3Fflag, a%23flag, a+%26flag, a%2526flag): same operation, one invocation. (b) full product of 8 methods x 19 addressed paths (root, bucket, object incl. a host that only ends with the text of the base domain, keys ending in or consisting of slashes and keys of the maximum legal length of 1024 bytes, /WriteGetObjectResponse; path-style and virtual-hosted-style under a host parser) x every subset of size <= {max} of {n_flags} query flags/members (every literal query item and query-bound member of the model, plus list-type=1 and select-type=1) x every subset of the 3 discriminating headers; the resolved route is observed at the access hook and compared with the reference router R1 (most-specific match over the Smithy http traits). Distinct by id."),
+        rule: format!("(a) 96 operations: the request aws-sdk-s3 encodes for base() and for every single deviation of every query- or header-bound member and of the object key (blanks, + % & = / ? #, escape-shaped text incl. one whose second decoding is not UTF-8, non-ASCII, 1024 bytes) (thorough: also all pairs of 'member present'), under 5 combinations of addressing style x host parser {{path/none, path/single, path/multi(2), virtual-hosted/single, virtual-hosted/multi(2)}}: the recording backend logs exactly that operation. (a2) every query-bound string member of every operation x every flag / query member name of the model x 6 spellings of a value that embeds it after an escaped separator (a%26flag, a%26flag%3D1, a%3Fflag, a%23flag, a+%26flag, a%2526flag): same operation, one invocation. (b) full product of 8 methods x 19 addressed paths (root, bucket, object incl. a host that only ends with the text of the base domain, keys ending in or consisting of slashes and keys of the maximum legal length of 1024 bytes, /WriteGetObjectResponse; path-style and virtual-hosted-style under a host parser) x every subset of size <= {max} of {n_flags} query flags/members (every literal query item and query-bound member of the model, plus list-type=1 and select-type=1) x every subset of the 3 discriminating headers; the resolved route is observed at the access hook and compared with the reference router R1 (most-specific match over the Smithy http traits). Distinct by id."),
         exhaustive: true,
         extra: json!({"query_flags": n_flags, "query_bound_string_members_given_routing_like_values": n_value_members}),
         assumptions: vec!["R1 is derived from data/s3.json only; requests for which its most-specific match is not unique are counted and skipped".into(), "CreateSession and ListDirectoryBuckets are deliberately absent from the S3 trait and outside the universe".into()],
